@@ -322,10 +322,33 @@ def main_check(prop, tier, seed, n_runs=None, workers=None, time_cap=None):
             # full minimisation budget for the first few distinct violations, a small one for the rest
             m = M.Minimiser(iso, os.path.join(base, "min"), budget=P.get("min_budget", 250) if nsig < 3 else 40,
                             seconds=150 if nsig < 3 else 40)
-            res0 = iso(r["spec"], os.path.join(base, "min0"))
-            if res0.get("violation") is None or res0["violation"].get("signature") != sig:
-                print("HARNESS-ERROR violation of run %d did not reproduce in the parent process" % r["run"])
-                return 2
+            intermittent = None
+            res0 = None
+            for attempt in range(5):
+                cand = iso(r["spec"], os.path.join(base, "min0"))
+                if cand.get("violation") is not None and cand["violation"].get("signature") == sig:
+                    res0 = cand
+                    break
+                intermittent = attempt + 1
+            if res0 is None or intermittent:
+                # The harness is deterministic (gate above), yet the same spec does not violate every time: the
+                # system under test itself behaves differently from execution to execution (uninitialised
+                # memory, address-based hashes, ...).  That is reported, not hidden; it cannot be minimised
+                # or replayed *exactly*, so the replay file says so and replay tries several times.
+                path = os.path.join(repdir, "%s-%d-%d-intermittent.json" % (prop, seed, r["run"]))
+                with open(path, "w") as f:
+                    json.dump({"property": prop, "engine": P["engine"], "seed": seed, "run": r["run"], "signature": sig,
+                               "violation": r["violation"], "digest": r["digest"], "spec": r["spec"], "intermittent": True,
+                               "reproduced_after_attempts": intermittent if res0 is not None else None,
+                               "count_in_batch": len(rs)}, f, indent=1, default=str)
+                print("VIOLATION property=%s replay=%s" % (prop, path))
+                print("  signature: %s   runs: %s" % (sig, [x["run"] for x in rs[:8]]))
+                print("  INTERMITTENT: the identical spec %s; the simulated system is nondeterministic beyond the seams "
+                      "(replay re-executes up to 8 times)" % ("violated again only at attempt %d" % (intermittent + 1) if res0 is not None
+                                                              else "did not violate again in 5 re-executions"))
+                exit_code = 1
+                reported.append({"signature": sig, "known": False, "count": len(rs), "replay": path, "intermittent": True})
+                continue
             spec_min, res_min = m.minimise(r["spec"], res0)
             is_known = any(k.get("signature") == sig for k in known)
             path = os.path.join(repdir, "%s-%d-%d%s.json" % (prop, seed, r["run"], "-known" if is_known else ""))
@@ -336,6 +359,15 @@ def main_check(prop, tier, seed, n_runs=None, workers=None, time_cap=None):
                            "minimised_ops": len(spec_min.get("ops", spec_min.get("cases", []))),
                            "count_in_batch": len(rs)}, f, indent=1, default=str)
             rc, out = replay_in_fresh_process(path)
+            if rc != 1 or "signature=" + sig not in out:
+                # minimised spec flaky? fall back to the unminimised one before giving up
+                with open(path, "w") as f:
+                    json.dump({"property": prop, "engine": P["engine"], "seed": seed, "run": r["run"], "signature": sig,
+                               "violation": res0["violation"], "digest": res0["digest"], "spec": r["spec"],
+                               "original_ops": len(r["spec"].get("ops", r["spec"].get("cases", []))),
+                               "minimised_ops": len(r["spec"].get("ops", r["spec"].get("cases", []))),
+                               "count_in_batch": len(rs), "intermittent": True}, f, indent=1, default=str)
+                rc, out = replay_in_fresh_process(path)
             if rc != 1 or "signature=" + sig not in out:
                 print("HARNESS-ERROR minimised replay %s did not reproduce in a fresh process (rc=%s)" % (path, rc))
                 print(out[-1500:])
@@ -452,7 +484,11 @@ def main_replay(path):
         return 0
     base = scratch_base()
     try:
-        res = execute_isolated(prop, rep["spec"], os.path.join(base, "replay"))
+        tries = 8 if rep.get("intermittent") else 1
+        for attempt in range(tries):
+            res = execute_isolated(prop, rep["spec"], os.path.join(base, "replay%d" % attempt))
+            if res.get("violation") is not None and res["violation"].get("signature") == rep.get("signature"):
+                break
     finally:
         shutil.rmtree(base, ignore_errors=True)
     v = res.get("violation")
